@@ -13,13 +13,89 @@ class _IterationDone(Exception):
     pass
 
 
+class CoopThreads:
+    """Helper threads of the blocking stack (the spa's ping thread, the facade's update thread) run as REAL
+    threads, but only ever one at a time and only when the harness lets them: a thread runs until it parks in
+    GeckoUdpSocket.wait(timeout), which records its virtual wake-up time; `run_due()` (called before every
+    engine pass) resumes the threads whose time has come and waits until each is parked again.
+    Deterministic, on the virtual clock."""
+
+    def __init__(self, clock, real_thread_cls):
+        self.clock = clock
+        self.real = real_thread_cls
+        self.cv = _threading.Condition()
+        self.recs = []
+
+    def spawn(self, target):
+        rec = {"wake": self.clock.t, "go": False, "done": False, "thread": None, "error": None}
+
+        def body():
+            with self.cv:
+                while not rec["go"]:
+                    self.cv.wait()
+            try:
+                target()
+            except BaseException as e:  # noqa
+                rec["error"] = e        # (the thread simply ends, as a real thread would)
+            finally:
+                with self.cv:
+                    rec["done"] = True
+                    rec["go"] = False
+                    self.cv.notify_all()
+
+        rec["thread"] = self.real(target=body, daemon=True)
+        self.recs.append(rec)
+        rec["thread"].start()
+
+    def _mine(self):
+        cur = _threading.current_thread()
+        for rec in self.recs:
+            if rec["thread"] is cur:
+                return rec
+        return None
+
+    def park(self, timeout):
+        """called (through the patched GeckoUdpSocket.wait) by a helper thread; False if the caller is not one"""
+        rec = self._mine()
+        if rec is None:
+            return False
+        with self.cv:
+            rec["wake"] = self.clock.t + max(0.0, timeout)
+            rec["go"] = False
+            self.cv.notify_all()
+            while not rec["go"]:
+                self.cv.wait()
+        return True
+
+    def run_due(self, force=False):
+        for rec in self.recs:
+            if rec["done"] or (not force and rec["wake"] > self.clock.t + 1e-12):
+                continue
+            with self.cv:
+                rec["go"] = True
+                self.cv.notify_all()
+                while rec["go"] and not rec["done"]:
+                    self.cv.wait(timeout=30)
+
+    def finish(self):
+        """let every helper thread observe that its socket is closed and end"""
+        for _ in range(3):
+            self.run_due(force=True)
+        return len([r for r in self.recs if not r["done"]])
+
+
 class InertThread:
+    coop = None          # set by W2 while a world with cooperative helper threads is active
+
     def __init__(self, *a, **kw):
         self.target = kw.get("target")
         self.started = False
 
     def start(self):
         self.started = True
+        t = self.target
+        if InertThread.coop is not None and t is not None and getattr(t, "__name__", "") != "_thread_func":
+            InertThread.coop.spawn(t)
 
     def join(self, timeout=None):
         return
@@ -62,8 +138,10 @@ class Clock:
 
 
 class W2:
-    def __init__(self):
+    def __init__(self, helper_threads=False):
         self.clock = Clock()
+        self.helper_threads = helper_threads
+        self.coop = None
 
     def __enter__(self):
         self._thread = _threading.Thread
@@ -71,9 +149,27 @@ class W2:
         _threading.Thread = InertThread
         clock = self.clock
         _time.monotonic = lambda: clock.t
+        if self.helper_threads:
+            import geckolib.driver.udp_socket as us
+            self.coop = CoopThreads(clock, self._thread)
+            InertThread.coop = self.coop
+            self._saved_wait = us.GeckoUdpSocket.wait
+            coop = self.coop
+
+            def wait(sock, timeout):
+                coop.park(timeout)          # (the harness's own thread has nothing to wait for in a stepped world)
+                return None
+            us.GeckoUdpSocket.wait = wait
         return self
 
     def __exit__(self, *a):
+        if self.coop is not None:
+            import geckolib.driver.udp_socket as us
+            try:
+                self.coop.finish()
+            finally:
+                us.GeckoUdpSocket.wait = self._saved_wait
+                InertThread.coop = None
         _threading.Thread = self._thread
         _time.monotonic = self._mono
         return False
@@ -89,6 +185,8 @@ class W2:
         sub-steps are the code's own.  With `substeps`: the named sub-steps only (C20's replay steps the
         model's sub-actions one by one)."""
         if substeps is None:
+            if InertThread.coop is not None:
+                InertThread.coop.run_due()
             if not sock.isopen:
                 return
             calls = [0]
